@@ -138,7 +138,9 @@ class Parser(object):
             if regex_token.type == 'REGEX':
                 self.parser.errok()
                 return regex_token
-        if (cur_token.type in ('DIV', 'DIVEQUAL') and
+        if (cur_token is not None and
+                cur_token.type in ('DIV', 'DIVEQUAL') and
+                self.lexer.valid_prev_token is not None and
                 self.lexer.valid_prev_token.type in (
                     'RBRACE', 'PLUSPLUS', 'MINUSMINUS')):
             # this is the most pathological case in JavaScript; given
